@@ -49,13 +49,9 @@ def _adjudicate(what, variant, y, valid, prm, lam, out_a, out_b, rec=None, shift
         return "curve_leaves_int16"  # outside the claim (edge-gap extrapolation / overshoot)
     if not zs and max(int(np.max(np.abs(out_a))), int(np.max(np.abs(out_b)))) >= 20000:
         return "curve_leaves_int16"
-    req(int(np.max(np.abs(d))) <= 1, "difference of more than one unit - " + desc, what.split(":")[0] + " relation broken")
-    if not zs:
-        return "unit_difference_unadjudicated"  # no reference curve at this lambda: counted, not judged
-    kap = smooth.kappa(len(y), lam, valid, prm.get("p") if variant in smooth.NEEDS_P else None)
     # Asymmetric variants: the curve is what at most 10 reweighting passes FROM THE ZERO CURVE reach (C03). Where that iteration
     # has not converged, the related input (shifted / reversed) legitimately ends on a slightly different curve; the reference
-    # model shows by how much, and the tie width is widened by that path dependence.
+    # model shows by how much, and the tie width is widened by that path dependence (beyond a quarter unit: counted, not judged).
     path_dep = 0.0
     if alt is not None and variant in smooth.NEEDS_P and variant not in smooth.ROBUST and zs:
         try:
@@ -64,6 +60,12 @@ def _adjudicate(what, variant, y, valid, prm, lam, out_a, out_b, rec=None, shift
                 path_dep = float(np.max(np.abs(z_alt - zs[0])))
         except Exception:  # noqa: BLE001 - adjudication aid only
             path_dep = 0.0
+    if 2 * path_dep >= 0.25:
+        return "asymmetric_iteration_not_converged"
+    req(int(np.max(np.abs(d))) <= 1, "difference of more than one unit - " + desc, what.split(":")[0] + " relation broken")
+    if not zs:
+        return "unit_difference_unadjudicated"  # no reference curve at this lambda: counted, not judged
+    kap = smooth.kappa(len(y), lam, valid, prm.get("p") if variant in smooth.NEEDS_P else None)
     explained = False
     worst = None
     for z in zs:
